@@ -300,6 +300,9 @@ impl World {
         }
         for (n, bytes) in &self.model {
             let Some(region) = db.get_region(n) else { return Err(("C01.names".into(), format!("region {n} missing"))); };
+            if region.meta().id() != n.as_str() {
+                return Err(("C01.names".into(), format!("region listed as {n} carries the name {:?} in its metadata", region.meta().id())));
+            }
             let len = region.meta().len();
             if len != bytes.len() {
                 return Err(("C01.len".into(), format!("region {n}: length {len} != model {}", bytes.len())));
